@@ -18,6 +18,7 @@ SPEC = {
     "assumptions": [
         "block gas limit: one history in four runs with MaxBlockGas = 80000 and blocks filled to within a few thousand gas of it; there a failed transaction legitimately consumes block gas, so LATER companions may fail for lack of block gas only in the world with the transaction (anything else is a violation); the displaced companions' keys (accounts 0/1, total supply) are then allowed to differ and the fee-flow sums are not checked",
         "the twin block's other transactions are not signed by the failing transaction's signer and do not pay it (otherwise their own validity legitimately depends on the signer's nonce/balance)",
+        "consensus MinGasPrice: histories run with 0, 1 and 1000 (seed mod 3); in the priced histories every genesis account but one gets 10^13 more so that fees of gas*price can be paid",
         "no transaction method is critical at this commit (the model carries the flag: critical methods skip authentication)",
     ],
 }
